@@ -78,7 +78,9 @@ func (o Option) DesignateNode(key ...string) Option {
 // e.g.
 // DesignateNodeWithPath({"sub graph node key", "node key within sub graph"})
 func (o Option) DesignateNodeWithPath(path ...*NodePath) Option {
-	o.paths = append(o.paths, path...)
+	nPaths := make([]*NodePath, 0, len(o.paths)+len(path))
+	nPaths = append(nPaths, o.paths...)
+	o.paths = append(nPaths, path...)
 	return o
 }
 
